@@ -39,6 +39,8 @@ inductive Err
   | handler                       -- the handler returned an error
   | badJid                        -- the request's from address does not parse
   | outputClosed                  -- a write was attempted after the local side closed its output
+  | outputBroken                  -- a write was attempted after an earlier one left an element open
+  | deadline                      -- the close deadline has passed
   deriving DecidableEq, Repr, Inhabited
 
 def Err.name : Err → String
@@ -46,7 +48,7 @@ def Err.name : Err → String
   | .streamError c => "se:" ++ c | .badFormat => "se:bad-format"
   | .procInst => "procinst" | .comment => "comment" | .directive => "directive"
   | .decoder => "decoder" | .badState => "bad-state" | .handler => "handler" | .badJid => "bad-jid"
-  | .outputClosed => "output-closed"
+  | .outputClosed => "output-closed" | .outputBroken => "output-broken" | .deadline => "deadline"
 
 /-- condition of the stream error `sendError` writes before closing -/
 def Err.cond : Err → String
@@ -242,6 +244,8 @@ structure Prog where
   /-- the handler first closes the session's output (`Session.Close`), before reading or
   writing anything: a local close between two elements -/
   close : Bool := false
+  /-- the handler first calls `SetCloseDeadline`: 0 = no, 1 = a time in the future, 2 = in the past -/
+  dl : Nat := 0
   deriving Repr, Inhabited
 
 def Prog.nop : Prog := { ops := [], ret := .ok }
@@ -573,19 +577,47 @@ def serveFP (cfg : Cfg) : Nat → List Pend → RS → List Prog → OutP
 def serveP (cfg : Cfg) (pend : List Pend) (inp : List Tok) (progs : List Prog) : OutP :=
   serveFP cfg (inp.length + 1) pend (RS.init inp) progs
 
-/-! ### the local side has closed its output (`OutputStreamClosed`)
+/-! ### the state of the output: open, left inside an element, closed
 
-After `Session.Close` every write fails (`ErrOutputStreamClosed`); the reply detector still sees
-the tokens the handler tries to write.  `sendError` returns the error it was given without
-writing anything. -/
+After `Session.Close` every write fails (`ErrOutputStreamClosed`), including the flush after
+the handler.  After a write that left an element open, or that the encoder refused (an end tag
+without a start tag), every *later* writer fails with `errOutputBroken` (its flush does not).
+In both states the reply detector still sees the tokens the handler tries to write, and
+`sendError` / `Close` return what they always return: the state of the output never changes
+the value `Serve` returns for the way the *input* ended. -/
+
+inductive OutSt | opn | broken | closed
+  deriving DecidableEq, Repr, Inhabited
 
 def Step.dropWritten : Step → Step
   | .next i _ rs => .next i [] rs
   | .stop i _ r => .stop i [] r
 
-/-- `handleElem` when the output is closed at entry (`closed`) or the handler closes it first -/
-def handleElemC (cfg : Cfg) (closed : Bool) (n : Name) (as : List Attr) (rs1 : RS) (prog : Prog) : Step :=
-  if !(closed || prog.close) then handleElem cfg n as rs1 prog else
+def Step.written : Step → List Tok
+  | .next _ w _ => w
+  | .stop _ w _ => w
+
+def Step.mapWritten (f : List Tok → List Tok) : Step → Step
+  | .next i w rs => .next i (f w) rs
+  | .stop i w r => .stop i (f w) r
+
+/-- what `encoding/xml`'s encoder does with the tokens of one writer, starting at nesting `d`:
+an end tag with nothing open is refused (not written, the encoder is marked failed);
+result: final nesting, failed, tokens on the wire -/
+def encWire : Nat → List Tok → Nat × Bool × List Tok
+  | d, [] => (d, false, [])
+  | d, .start n as :: ts => let r := encWire (d + 1) ts; (r.1, r.2.1, .start n as :: r.2.2)
+  | 0, .stop _ :: ts => let r := encWire 0 ts; (r.1, true, r.2.2)
+  | d + 1, .stop n :: ts => let r := encWire d ts; (r.1, r.2.1, .stop n :: r.2.2)
+  | d, t :: ts => let r := encWire d ts; (r.1, r.2.1, t :: r.2.2)
+
+/-- did this writer leave the output inside an element (or make the encoder fail) -/
+def leavesBroken (ts : List Tok) : Bool := (encWire 0 ts).1 != 0 || (encWire 0 ts).2.1
+
+/-- `handleElem` for any state of the output at entry; the handler may close the output first -/
+def handleElemC (cfg : Cfg) (st : OutSt) (n : Name) (as : List Attr) (rs1 : RS) (prog : Prog) : Step :=
+  let st1 : OutSt := if prog.close then .closed else st
+  if st1 == .opn then (handleElem cfg n as rs1 prog).mapWritten fun w => (encWire 0 w).2.2 else
   match prog.ret with
   | .ok =>
     let as' := blankFrom cfg n as
@@ -594,31 +626,43 @@ def handleElemC (cfg : Cfg) (closed : Bool) (n : Name) (as : List Attr) (rs1 : R
     let inv : Inv := { start := .start n as', view := view }
     let needs := isIq n && isRequestTyp (getTyp as') && !ws1.wrote
     if needs && (replyTo cfg as').isNone then .stop (some inv) [] (.error .badJid)
-    else if needs || !(writesOf prog.ops).isEmpty then .stop (some inv) [] (.error .outputClosed)
+    else if needs then .stop (some inv) [] (.error (if st1 == .closed then .outputClosed else .outputBroken))
+    else if st1 == .closed && !(writesOf prog.ops).isEmpty then .stop (some inv) [] (.error .outputClosed)
     else
       match discard es1 with
       | (none, es2) => .next (some inv) [] es2.rs
       | (some e, _) => .stop (some inv) [] (.error e)
   | _ => (handleElem cfg n as rs1 prog).dropWritten
 
-def handleInputStreamC (cfg : Cfg) (closed : Bool) (rs : RS) (prog : Prog) : Step :=
+def handleInputStreamC (cfg : Cfg) (st : OutSt) (rs : RS) (prog : Prog) : Step :=
   match ({ rs with dOut := 0, sticky := none } : RS).next with
-  | (.tok (.start n as), rs1) => handleElemC cfg closed n as rs1 prog
+  | (.tok (.start n as), rs1) => handleElemC cfg st n as rs1 prog
   | _ => handleInputStream cfg rs prog
 
-def serveFC (cfg : Cfg) : Nat → Bool → RS → List Prog → Out
-  | 0, _, _, _ => { invs := [], written := [], result := .error .decoder }
-  | fuel + 1, closed, rs, progs =>
-    match handleInputStreamC cfg closed rs (progs.headD Prog.nop) with
+/-- state of the output after an invocation that wrote `w` (as handed to the encoder) -/
+def outAfter (st : OutSt) (prog : Prog) (w : List Tok) : OutSt :=
+  if prog.close then .closed
+  else match st with
+    | .opn => if leavesBroken w then .broken else .opn
+    | s => s
+
+/-- `Serve` with the state of the output and the close deadline: `expired` = the input context
+has ended (`SetCloseDeadline` with a time in the past), checked before every element; a
+deadline in the future changes nothing -/
+def serveFC (cfg : Cfg) : Nat → OutSt → Bool → RS → List Prog → Out
+  | 0, _, _, _, _ => { invs := [], written := [], result := .error .decoder }
+  | fuel + 1, st, expired, rs, progs =>
+    if expired then { invs := [], written := [], result := .error .deadline } else
+    let p := progs.headD Prog.nop
+    match handleInputStreamC cfg st rs p with
     | .stop inv w res => { invs := inv.toList, written := w, result := res }
     | .next inv w rs' =>
-      let o := serveFC cfg fuel (closed || (inv.isSome && (progs.headD Prog.nop).close)) rs'
-        (if inv.isSome then progs.tail else progs)
+      let o := serveFC cfg fuel (if inv.isSome then outAfter st p (handleInputStream cfg rs p).written else st)
+        (inv.isSome && p.dl == 2) rs' (if inv.isSome then progs.tail else progs)
       { invs := inv.toList ++ o.invs, written := w ++ o.written, result := o.result }
 
-/-- `Serve` on a session whose output is already closed (`closed`) or not -/
 def serveC (cfg : Cfg) (closed : Bool) (inp : List Tok) (progs : List Prog) : Out :=
-  serveFC cfg (inp.length + 1) closed (RS.init inp) progs
+  serveFC cfg (inp.length + 1) (if closed then .closed else .opn) false (RS.init inp) progs
 
 /-! ### tokens of the regenerated verdict table (`Generated/C08.lean`) -/
 
